@@ -34,7 +34,7 @@ def pfc_layout(p):
             return None
         first = pos // 39
         pos += 5 + size[b]
-        res.append((first, (pos - 1) // 39, size[b]))
+        res.append((first, (pos - 1) // 39, size[b], (pos - 1) % 39))
     return res
 
 
@@ -45,9 +45,12 @@ def pfc_ok_point(p):
         return False
     ppp = p.get("PPP", 2)
     d = p.get("DROP", -1)
+    for (f, l, s, e) in lay:
+        if s >= 1 and e == 38:            # known defect pfc_block_end_overread
+            return False
     if d >= 0 and d % (ppp + 1) == ppp:
         gd = d // (ppp + 1) * ppp + ppp - 1
-        for (f, l, s) in lay:
+        for (f, l, s, e) in lay:
             if s >= 1 and f < gd <= l:
                 return False
     return True
@@ -58,7 +61,7 @@ def pfc_delivered(p):
     ppp = p.get("PPP", 2)
     d = p.get("DROP", -1)
     n = 0
-    for (f, l, s) in lay:
+    for (f, l, s, e) in lay:
         ok = s >= 1
         if d >= 0:
             g, j = divmod(d, ppp + 1)
@@ -79,7 +82,7 @@ def pfc_grid(tier):
     base = dict(NPAGES=2, PPP=2)
     add(NB=2, SZ0=33, SZ1=7, **base)                       # second BS in the last byte of packet 1 (offset 38)
     add(NB=2, SZ0=5, PAD1=26, SZ1=9, **base)               # BS at offset 36: structure header split 2 + 2 across packets
-    add(NB=3, SZ0=34, SZ1=0, SZ2=12, **base)               # block ends with the packet; zero size block; BP = 0 next
+    add(NB=3, SZ0=29, SZ1=0, SZ2=12, **base)               # structure header of a zero size block ends with the packet; BP = 0 next
     add(NB=2, SZ0=90, SZ1=4, PAD0=3, MAG=0, PG=0x1C, STREAM=0, CI0=15, CBITS=5, **base)   # block over 3 packets and 2 pages, magazine 8
     # -- one lost packet, three pages --
     add(NB=3, SZ0=5, SZ1=40, SZ2=3, PAD2=80, DROP=4)       # packet 1 of page 2 lost, last block lies on page 3
@@ -106,7 +109,7 @@ def pfc_grid(tier):
 def obligations(tier, seed):
     U = ["src/hamm.c"]
     idl = dict(harness="h_c15.c", units=U, vin_size=512, unwind=43,
-               unwindset={"init_crc16_table.0": 257, "init_crc16_table.1": 257, "idl_feed.0": 257})
+               unwindset={"init_crc16_table.0": 257, "init_crc16_table.1": 257, "idl_feed.0": 257, "h_idl_crc_table.0": 257, "h_idl_crc_table.1": 257})
     pfc = dict(harness="h_c15_pfc.c", units=U)
     KN = {"KNOWN_IDL_FLAGS": None, "KNOWN_IDL_IMPLICIT_CI_RUN": None}
     idl_assumes = ["sender reading of EN 300 708 6.5 as in the library comments: SPA nibbles least significant first; a 0x00/0xFF run starts with a "
@@ -116,7 +119,7 @@ def obligations(tier, seed):
                    "RI = 0x00 when present (repeats: idl_a_repeat)"]
     # (FT, SPALEN, DEP)
     ft_all = [(ft, sp, (ft // 2 + sp) & 1) for ft in range(0, 16, 2) for sp in range(7)]
-    q1 = [dict(FT=ft, SPALEN=sp, DEP=d, NPK=1) for (ft, sp, d) in [(0, 0, 0), (2, 3, 1), (4, 1, 0), (6, 6, 1), (8, 2, 1), (10, 4, 0), (12, 5, 1), (14, 6, 0)]]
+    q1 = [dict(FT=ft, SPALEN=sp, DEP=d, NPK=1) for (ft, sp, d) in [(4, 1, 0), (8, 2, 1), (12, 3, 1)]]
     t1 = [dict(FT=ft, SPALEN=sp, DEP=d, NPK=1) for (ft, sp, d) in ft_all]
     q2 = [dict(FT=4, SPALEN=1, DEP=1, NPK=2), dict(FT=8, SPALEN=0, DEP=0, NPK=2, UNREL_DESIGNATION=15)]
     t2 = [dict(FT=ft, SPALEN=(ft // 2 * 3) % 7, DEP=(ft // 2) & 1, NPK=2, UNREL_DESIGNATION=(15 if ft & 4 else 2 + ft)) for ft in range(0, 16, 2)] + \
@@ -133,22 +136,22 @@ def obligations(tier, seed):
            "corruption (non-zero XOR mask on any byte of the check word protected part, check fails) is never delivered and returns FALSE; other addresses return TRUE, no delivery; "
            "an unrelated packet before it changes nothing",
            encodes=["vbi_idl_demux_feed", "idl_a_demux_feed", "_vbi_idl_demux_init", "vbi_unham8"], defines=KN, stubs=[CRC_STUB],
-           assumes=idl_assumes, bounds="1 packet; layout (FT, SPALEN, DEP) enumerated: quick 8 points, thorough all 56 (FT, SPALEN) pairs",
+           assumes=idl_assumes, bounds="1 packet; layout (FT, SPALEN, DEP) enumerated: quick 3 points, thorough all 56 (FT, SPALEN) pairs",
            outside="flags argument (known defect, see idl_a_flags_argument); implicit CI run corner (idl_a_implicit_ci_run)",
-           grid=t1, quick_grid=q1, reach=["end", "all", "crcfail"], solver="cadical", timeout=600, mem_gb=4, **idl),
+           grid=t1, quick_grid=q1, reach=["end", "all", "crcfail"], flags=["--slice-formula"], timeout=600, mem_gb=4, **idl),
         Ob("idl_a_seq", func="h_idl_a_seq", desc="IDL-A SEQ-k: as idl_a_seq1 for k consecutive slots from _vbi_idl_demux_init; deliveries concatenate to the sent bytes of our "
            "address in order, nothing for other addresses, delivery continues after a corrupted or foreign packet; CI values symbolic per packet",
            encodes=["vbi_idl_demux_feed", "idl_a_demux_feed", "_vbi_idl_demux_init", "vbi_unham8"], defines=KN, stubs=[CRC_STUB],
            assumes=idl_assumes, bounds="k = 2 (quick: 2 layouts; thorough: all 8 FT) and k = 3 (thorough, 3 layouts)",
            outside="flags argument (known defect); more than 3 packets",
-           grid=t2, quick_grid=q2, reach=["end", "all", "crcfail"], solver="cadical", timeout=900, mem_gb=6, **idl),
+           grid=t2, quick_grid=q2, reach=["end", "all", "crcfail"], flags=["--slice-formula"], timeout=900, mem_gb=6, **idl),
         Ob("idl_a_hamming", func="h_idl_a_hamming", desc="every Hamming 8/4 protected header byte (channel, designation, FT, IAL, each SPA nibble; position concrete, "
            "value symbolic): within distance 1 of the sent code word -> corrected, same delivery; not decodable -> FALSE, nothing delivered, demux state untouched",
            encodes=["vbi_idl_demux_feed", "idl_a_demux_feed", "vbi_unham8"], defines=KN, stubs=[CRC_STUB], assumes=idl_assumes,
-           bounds="1 packet per position; (FT, SPALEN): quick (12,2), (6,6); thorough 8 more",
+           bounds="1 packet per position; (FT, SPALEN): quick (12,2); thorough 9 more",
            grid=[dict(FT=ft, SPALEN=sp, DEP=d) for (ft, sp, d) in [(12, 2, 0), (6, 6, 1), (0, 0, 1), (2, 1, 0), (4, 3, 0), (8, 4, 1), (10, 5, 0), (14, 6, 1), (14, 0, 0), (4, 6, 1)]],
-           quick_grid=[dict(FT=12, SPALEN=2, DEP=0), dict(FT=6, SPALEN=6, DEP=1)],
-           reach=["end", "refused", "corrected"], solver="cadical", timeout=900, mem_gb=6, **idl),
+           quick_grid=[dict(FT=12, SPALEN=2, DEP=0)],
+           reach=["end", "refused", "corrected"], flags=["--slice-formula"], timeout=900, mem_gb=6, **idl),
         Ob("idl_a_repeat", func="h_idl_a_repeat", desc="repeat indicator: packet A sent twice (RI 0x80, 0x01) then B (RI 0x00), every transmission independently clean / "
            "corrupted in the protected part / not received: A delivered exactly once if its first copy is clean or (first corrupted and repeat clean), never twice, never without "
            "a clean copy; B iff clean; bytes exact",
@@ -156,23 +159,23 @@ def obligations(tier, seed):
            bounds="3 transmissions; FT with RI: quick FT=6; thorough FT in {2,6,10,14}",
            outside="RI bits 4-6; more than one repeat; a repeat whose first copy was never received is discarded by this demux (loss then flagged): accepted",
            grid=[dict(FT=ft, SPALEN=sp, DEP=0) for (ft, sp) in [(6, 2), (2, 0), (10, 3), (14, 6)]], quick_grid=[dict(FT=6, SPALEN=2, DEP=0)],
-           reach=["end", "recovered", "lost"], solver="cadical", timeout=900, mem_gb=6, **idl),
+           reach=["end", "recovered", "lost"], flags=["--slice-formula"], timeout=900, mem_gb=6, **idl),
         # ---- expected to be REFUTED on the current tree: genuine defects, see report ----
-        Ob("idl_a_flags_argument", func="h_idl_a_seq", desc="DEFECT PROBE: the flags ARGUMENT of the callback equals (DATA_LOST iff a packet of ours failed its check since the last "
-           "delivery or CI is not the successor of the last delivered CI) | (DEPENDENT iff IAL bit 3); refuted: idl_demux.c:213 passes dx->flags (DATA_LOST already cleared, "
-           "DEPENDENT never set) instead of the local flags",
-           encodes=["idl_a_demux_feed"], defines={"KNOWN_IDL_IMPLICIT_CI_RUN": None}, stubs=[CRC_STUB], assumes=idl_assumes,
-           bounds="2 packets, FT=4 (CI), SPALEN=1, DEP=1", grid=[dict(FT=4, SPALEN=1, DEP=1, NPK=2)],
-           reach=["end", "all", "crcfail"], solver="cadical", timeout=900, mem_gb=6, **idl),
+        Ob("idl_a_flags_argument", func="h_idl_a_gap_flags", desc="DEFECT PROBE: three packets of ours with symbolic CI values, each optionally damaged in the check word: the flags "
+           "ARGUMENT of every callback equals (DATA_LOST iff a packet failed its check since the last delivery or CI is not the successor of the last delivered CI) | (DEPENDENT "
+           "iff IAL bit 3); refuted: idl_demux.c:213 passes dx->flags (DATA_LOST already cleared, DEPENDENT never set) instead of the local flags",
+           encodes=["idl_a_demux_feed"], stubs=[CRC_STUB], assumes=idl_assumes[:1] + ["payload concrete except its first byte"],
+           bounds="3 packets, FT=4 (CI), SPALEN=1, DEP=0 (so that only DATA_LOST can differ)", grid=[dict(FT=4, SPALEN=1, DEP=0)],
+           reach=["end", "lost_after_crc", "lost_after_gap"], flags=["--slice-formula"], timeout=600, mem_gb=4, **idl),
         Ob("idl_a_first_flags", func="h_idl_a_first_flags", desc="DEFECT PROBE: demux constructed on dirty memory (vbi_idl_a_demux_new = malloc + _vbi_idl_demux_init): the first "
            "delivery carries only documented flag bits and no DATA_LOST; refuted: dx->flags is never initialised",
            encodes=["_vbi_idl_demux_init", "vbi_idl_demux_reset", "idl_a_demux_feed"], stubs=[CRC_STUB], assumes=idl_assumes,
-           bounds="1 packet, FT=4, SPALEN=1", grid=[dict(FT=4, SPALEN=1, DEP=0)], solver="cadical", timeout=600, mem_gb=4, **idl),
+           bounds="1 packet, FT=4, SPALEN=1", grid=[dict(FT=4, SPALEN=1, DEP=0)], flags=["--slice-formula"], timeout=600, mem_gb=4, **idl),
         Ob("idl_a_implicit_ci_run", func="h_idl_a_seq", desc="DEFECT PROBE: idl_a_seq1 without the exclusion of 'implicit CI in {0x00,0xFF} and the first 7 user bytes equal to it': "
            "refuted: the demux seeds its run counter with the untransmitted implicit CI and drops the 8th user byte (or delivers the real dummy byte)",
            encodes=["idl_a_demux_feed"], defines={"KNOWN_IDL_FLAGS": None}, stubs=[CRC_STUB], assumes=idl_assumes,
            bounds="1 packet, FT=0, SPALEN=0", grid=[dict(FT=0, SPALEN=0, DEP=0, NPK=1)], reach=["end", "all", "crcfail"],
-           solver="cadical", timeout=600, mem_gb=4, **idl),
+           flags=["--slice-formula"], timeout=600, mem_gb=4, **idl),
     ]
     # ---------------- PFC ----------------
     pfc_seq = dict(unwind=240, unwindset={"c15_memcpy.0": 40, "c15_memcpy.1": 40}, vin_size=2400,
@@ -185,7 +188,7 @@ def obligations(tier, seed):
            "byte exact, with application id, size, page, stream; zero size blocks are not delivered; the blocks touching the lost part are dropped, delivery resumes with the first "
            "block that starts on the next page; invariant after every packet",
            encodes=["vbi_pfc_demux_feed", "_vbi_pfc_demux_decode", "_vbi_pfc_demux_init", "vbi_pfc_demux_reset", "vbi_unham8", "vbi_unham16p"],
-           defines={"KNOWN_PFC_LAST_PACKET_LOSS": None},
+           defines={"KNOWN_PFC_LAST_PACKET_LOSS": None, "KNOWN_PFC_BLOCK_END_OVERREAD": None},
            assumes=["every quantity that steers the demux is a grid constant (sizes, paddings, geometry, app ids, page, stream, CI, control bits, lost packet); symbolic: block bytes, "
                     "header text, unrelated packet bodies", "unrelated traffic has decodable address bytes and is not a page header (a header of another magazine ends our page in this demux: serial mode assumption)"],
            bounds="quick: 8 layouts (BS in last byte of a packet, structure header split 2+2, block ending with the packet, zero size block, block over 3 packets / 2 pages, magazine 8, "
@@ -196,15 +199,21 @@ def obligations(tier, seed):
         Ob("pfc_last_packet_loss", func="h_pfc_seq", desc="DEFECT PROBE: pfc_seq with the LAST packet of page 1 lost while a 40 byte block is in progress: refuted - the next page header "
            "(CI continuous) does not notice that packet 2 never came, the block is completed with bytes of the next page and delivered corrupted",
            encodes=["vbi_pfc_demux_feed", "_vbi_pfc_demux_decode"], grid=[dict(NB=3, SZ0=5, SZ1=40, SZ2=3, DROP=2, UNREL=0)],
-           bounds="1 layout", reach=["end"], timeout=900, mem_gb=6, **pfc_seq),
+           defines={"KNOWN_PFC_BLOCK_END_OVERREAD": None}, bounds="1 layout", reach=["end"], timeout=900, mem_gb=6, **pfc_seq),
+        Ob("pfc_block_end_overread", func="h_pfc_seq", desc="DEFECT PROBE: one page, one packet, one 34 byte block whose last byte is byte 41 of the packet: refuted - after the "
+           "callback _vbi_pfc_demux_decode falls into the filler scan with col == 42 and reads buffer[42] (pfc_demux.c:160); the byte found there decides between 'fine', a "
+           "phantom block start and a reset",
+           encodes=["_vbi_pfc_demux_decode"], defines={"KNOWN_PFC_LAST_PACKET_LOSS": None}, grid=[dict(NPAGES=1, PPP=1, NB=1, SZ0=34, UNREL=0)],
+           bounds="1 layout", reach=["end"], timeout=600, mem_gb=4, **pfc_seq),
         Ob("pfc_step", func="h_pfc_step", tier="thorough",
            desc="PFC INV-STEP: from EVERY demux state satisfying the representation invariant (ci, packet, n_packets ranges; header phase: bi+left in {0,4}; "
                 "data phase: app <= 31, size <= 2047, bi+left == size) and EVERY 42 byte packet, vbi_pfc_demux_feed stays inside the exact-size demux object (memcpy ranges, "
                 "block[2048], packet[42]), re-establishes the invariant, hands only complete blocks of 1..2047 bytes to the callback (which may return FALSE), leaves page/stream/"
                 "callback alone; packets of another magazine and packets 26..31 change nothing; undecodable address -> FALSE",
-           encodes=["vbi_pfc_demux_feed", "_vbi_pfc_demux_decode", "vbi_pfc_demux_reset"], defines={"PFC_MEMCPY_PREFIX": 4},
+           encodes=["vbi_pfc_demux_feed", "_vbi_pfc_demux_decode", "vbi_pfc_demux_reset"], defines={"PFC_MEMCPY_PREFIX": 4, "KNOWN_PFC_BLOCK_END_OVERREAD": None},
            stubs=["CBMC build: memcpy model = w_ok/r_ok range checks + copy of only the bytes that land in block[0..3] (the structure header, the only bytes ever read back); "
-                  "block contents beyond are arbitrary from the start"],
+                  "block contents beyond are arbitrary from the start",
+                  "the packet buffer has 43 readable bytes (42 + 1 arbitrary), because of defect pfc_block_end_overread"],
            assumes=["representation invariant pfc_inv (established by _vbi_pfc_demux_init: asserted in pfc_seq; preserved: this obligation)"],
            bounds="one step; histories of any length by induction", unwind=43,
            unwindset={"_vbi_pfc_demux_decode.1": 19, "_vbi_pfc_demux_decode.0": 40, "c15_memcpy.0": 40, "c15_memcpy.1": 40},
